@@ -512,10 +512,10 @@ def reader_execs(rng, thorough):
         execs.append(fx)
     m = 1 << 20
     big = []
-    for size in [129 * m + 10000] + ([128 * m + 1, 257 * m + 3] if thorough else []):
+    for size in [129 * m + 10000] + ([128 * m + 1] if thorough else []):        # (a 257 MiB file cost 20 minutes on a loaded machine)
         f = rng.choice(NAMES)
         ex = ["RESET", "MKFILE %d %d %d" % (f, rng.randrange(2, 1000), size)]
-        for hint in [size - 10000, 128 * m + 1, size] + ([size + 1, 128 * m, 4096] if thorough else []):
+        for hint in [size - 10000, 128 * m + 1, size] + ([size + 1, 4096] if thorough else []):
             if hint > 0:
                 ex.append("BUFFILE a %d 1 %d" % (f, hint))
         ex.append("BUFFILE r %d 0 0" % f)
